@@ -30,7 +30,9 @@ claim("C04", "proof",
       "every character copied or replaced by as many blanks as it has bytes, prefix offsets equal), so positions computed by the "
       "parser on the stripped text are valid byte positions and character boundaries of the original file. The remaining clauses "
       "(labels of later stages are in range, on boundaries and cover the construct named in the message) are checked by a label audit "
-      "of every report on generated multi-byte/CRLF/commented files: that part is exploration, stated as partial in the evidence.",
+      "of every report on generated multi-byte/CRLF/commented files, and the line:column printed by the real binary and every SARIF region "
+      "(primary and related locations) are compared with positions recomputed from the original bytes: that part is exploration, stated "
+      "as partial in the evidence.",
       "Lean kernel + standard axioms for the stripper part; LALRPOP @L/@R, lifting/desugaring metadata flow and codespan rendering are exercised, not proved.",
       "Lean 4 proof (offset preservation) + label audit on the real pipeline", "5 (C04)")
 
